@@ -433,9 +433,10 @@ class AntiWindUp(MulVarFunc):
 
     @classmethod
     def eval(cls, u, umin, umax, e):
-        return e * Not(Or(And(GreaterThan(u, umax),
+        # u >= umax is Not(u < umax) and u <= umin is Not(u > umin): the limits themselves already block the integrator
+        return e * Not(Or(And(Not(LessThan(u, umax)),
                               GreaterThan(e, 0)),
-                          And(LessThan(u, umin),
+                          And(Not(GreaterThan(u, umin)),
                               LessThan(e, 0))
                           ))
 
